@@ -26,6 +26,47 @@ def py_urlenc(x, safe):
     return b"".join(bytes([c]) if c in safe else b"%%%02x" % c for c in x)
 
 
+def x2c(up, low):
+    """_q_x2c: the two bytes after `%` as hex digits (char is signed; non-digits give what the arithmetic gives)"""
+    def dg(c):
+        sc = c - 256 if c > 127 else c
+        return ((c & 0xdf) - 65 + 10) if sc >= 65 else (c - 48)
+    return (16 * dg(up) + dg(low)) & 0xff
+
+
+def py_urldec(x):
+    """reference URL decoding for well-formed input: %hh (hex digits) -> byte, '+' -> blank; the C string ends
+    at a decoded NUL"""
+    out, i = bytearray(), 0
+    while i < len(x):
+        c = x[i]
+        if c == 0x25 and i + 2 <= len(x) - 1:          # two more bytes before the terminator
+            out.append(x2c(x[i + 1], x[i + 2])); i += 3
+        elif c == 0x2b:
+            out.append(0x20); i += 1
+        else:
+            out.append(c); i += 1
+    return bytes(out).split(b"\0")[0]
+
+
+def py_parse_queries(q, eq, sep):
+    """what qparse_queries is documented to deliver for the separators eq / sep (0 = the terminator itself:
+    nothing is split): pairs in order; name trimmed; both URL-decoded"""
+    out = []
+    rest = q
+    while rest:
+        if sep and bytes([sep]) in rest:
+            item, rest = rest.split(bytes([sep]), 1)
+        else:
+            item, rest = rest, b""
+        if eq and bytes([eq]) in item:
+            name, value = item.split(bytes([eq]), 1)
+        else:
+            name, value = item, b""
+        out.append((py_urldec(name.strip(b" \t\r\n")), py_urldec(value)))
+    return out
+
+
 class TheCheck(Check):
     prop = "C16"
     module = "encode"
@@ -110,6 +151,28 @@ class TheCheck(Check):
             self.qpairs = getattr(self, "qpairs", {})
             self.qpairs[qs[-1]] = pairs
         sts.append(Stream("query-roundtrip", qs))
+        # 6. the same with other separators (every pair from a set incl. '\0', bytes >= 0x80, '%', '+', blank
+        #    and equalchar == sepchar): the reference reading is split at sepchar, then at the first
+        #    equalchar, trim the name, URL-decode both (py_parse_queries); exact result expected
+        SEPS = [0x3d, 0x26, 0x3b, 0x20, 0x00, 0x80, 0xff, 0x25, 0x2b]
+        qs = []
+        self.qref = {}
+        for e in SEPS:
+            for sp in SEPS:
+                for i in range(6 if self.tier == "quick" else 80):
+                    k = rng.randrange(1, 5)
+                    parts = []
+                    for _ in range(k):
+                        nm = bytes(rng.choice(b"abXY09 _.%2B+") for _ in range(rng.randrange(0, 6))).replace(b"%", b"%41")
+                        vl = bytes(rng.choice(b"abXY09 _.%+") for _ in range(rng.randrange(0, 7))).replace(b"%", b"%7e")
+                        parts.append(nm + (bytes([e]) if e else b"") + vl)
+                    q = (bytes([sp]) if sp else b"").join(parts)
+                    if not q or 0 in q:
+                        continue
+                    op = "query %s %02x %02x" % (hexs(q), e, sp)
+                    self.qref[op] = py_parse_queries(q, e, sp)
+                    qs.append(op)
+        sts.append(Stream("query-any-separator", qs))
         return sts
 
     def judge(self, op, line):
@@ -158,6 +221,11 @@ class TheCheck(Check):
             dec = parse_dec(f)
             if dec is None or dec[0] != b"a b ":
                 return "'+' is not decoded to a blank"
+        elif kind == "query" and op in getattr(self, "qref", {}):
+            want = self.qref[op]
+            got = [tuple(unhex(p) for p in t.split("=")) for t in f[2:]]
+            if f[0] != "ok" or int(f[1]) != len(want) or got != want:
+                return "qparse_queries with separators %s/%s: expected %r got %r" % (w[2], w[3], want, got)
         elif kind == "query":
             pairs = getattr(self, "qpairs", {}).get(op)
             if pairs is not None:
